@@ -146,16 +146,33 @@ def specSum (add : Val → Val → Except Exc Val) : Script → Val → Out
   | .raise e :: _, _ => .err (.exc e)
   | _, acc => .val acc
 
-/-- `min(it)`/`max(it)` (optionally `default=`): `better v b` says `v` replaces the best so far -/
-def specMinMax (better : Val → Val → Except Exc Bool) : Script → Option Val → Out
-  | .item v :: r, none => specMinMax better r (some v)
-  | .item v :: r, some b =>
-    match better v b with
-    | .error e => .err (.exc e)
-    | .ok c => specMinMax better r (some (if c then v else b))
-  | .raise e :: _, _ => .err (.exc e)
-  | _, none => .err (.exc .value)
-  | _, some b => .val b
+/-- `min(it)`/`max(it)` with `key=` and `default=`: the items are compared by their keys (`better kv bk` says the new
+key replaces the best so far), the first error of `key`/the comparison propagates; the default is the result exactly
+when there is no item (it is not compared and `key` is not applied to it); no item and no default is ValueError. -/
+def specMinMaxKey (key : Val → Except PyErr Val) (better : Val → Val → Except Exc Bool) : Script → Option (Val × Val) → Option Val → Out
+  | .item v :: r, best, d =>
+    match key v with
+    | .error e => .err e
+    | .ok kv =>
+      match best with
+      | none => specMinMaxKey key better r (some (kv, v)) d
+      | some b =>
+        match better kv b.1 with
+        | .error e => .err (.exc e)
+        | .ok c => specMinMaxKey key better r (some (if c then (kv, v) else b)) d
+  | .raise e :: _, _, _ => .err (.exc e)
+  | _, some b, _ => .val b.2
+  | _, none, some d => .val d
+  | _, none, none => .err (.exc .value)
+
+def specMinMax (better : Val → Val → Except Exc Bool) (sc : Script) (dflt : Option Val) : Out :=
+  specMinMaxKey (fun v => .ok v) better sc none dflt
+
+/-- `l.extend(it)` / `l += it` -/
+def specExtend (init : List Val) (sc : Script) : Out := specAll (fun xs => .list (init ++ xs)) sc
+
+/-- `s.update(it)`: the union of `s` and `set(it)` -/
+def specSetUpdate (init : List Val) (sc : Script) : Out := specAll (fun xs => .set (dedup init (dedup [] xs))) sc
 
 /-- `next(it)` / `next(it, default)` -/
 def specNext (dflt : Option Val) : Script → Out
@@ -239,7 +256,7 @@ def userNext : Script → Resp × Script
 
 /-- frame of a generator function whose body performs the script: `yield v`, `return`, `raise StopIteration()`,
 `return v`, `raise e`; falling off the end returns None -/
-def scriptRun (_sent : Option Val) : Script → RunOut × Script
+def scriptRun (_ent : Entry) : Script → RunOut × Script
   | [] => (.ret .none, [])
   | .item v :: r => (.yield v, r)
   | .stopClass :: r => (.ret .none, r)
@@ -259,10 +276,11 @@ def encodeStep : Step → Val
   | .stopInstance => .pair (.int 2) .none
   | .stopVal v => .pair (.int 3) v
   | .raise e => .pair (.int 4) (.int (match e with
-      | .value => 0 | .key => 1 | .type => 2 | .zeroDiv => 3 | .index => 4 | .runtime => 5 | .attr => 6 | .lookup => 7))
+      | .value => 0 | .key => 1 | .type => 2 | .zeroDiv => 3 | .index => 4 | .runtime => 5 | .attr => 6 | .lookup => 7
+      | .genExit => 8))
 
 def decodeExc : Int → Exc
-  | 0 => .value | 1 => .key | 2 => .type | 3 => .zeroDiv | 4 => .index | 5 => .runtime | 6 => .attr | _ => .lookup
+  | 0 => .value | 1 => .key | 2 => .type | 3 => .zeroDiv | 4 => .index | 5 => .runtime | 6 => .attr | 8 => .genExit | _ => .lookup
 
 def decodeF : Val → Except NextErr Val
   | .pair (.int 0) v => .ok v
@@ -287,25 +305,90 @@ def getitemOf (sc : Script) (i : Nat) : Resp :=
 /-- reference semantics of a generator object, replaying a history of sends (`none` = `next`)
 against the *coroutine* denoted by `run`: what each call returns.
 `live` = the body has neither returned nor raised. -/
-def specHistory {φ : Type} (run : Option Val → φ → RunOut × φ) : List Val → (started : Bool) → (live : Bool) → φ → List Resp
+def specHistory {φ : Type} (run : Entry → φ → RunOut × φ) : List Val → (started : Bool) → (live : Bool) → φ → List Resp
   | [], _, _, _ => []
   | a :: h, started, live, fr =>
     if !live then .err .stopType :: specHistory run h started live fr
     else if !started && a != .none then .err (.other .type) :: specHistory run h started live fr
     else
-      match run (if started then some a else none) fr with
+      match run (if started then .send a else .first) fr with
       | (.yield v, fr') => .item v :: specHistory run h true true fr'
       | (.ret v, fr') => .err (if v != .none then .stopExc v else .stopType) :: specHistory run h true false fr'
       | (.raise e, fr') => .err e :: specHistory run h true false fr'
 
 /-- the model run over a history -/
-def modelHistory {φ : Type} (run : Option Val → φ → RunOut × φ) : List Val → GenObj φ → List Resp
+def modelHistory {φ : Type} (run : Entry → φ → RunOut × φ) : List Val → GenObj φ → List Resp
   | [], _ => []
   | a :: h, g => let r := g.send run a; r.1 :: modelHistory run h r.2.1
 
 /-- number of times the frame was run over a history -/
-def runCount {φ : Type} (run : Option Val → φ → RunOut × φ) : List Val → GenObj φ → Nat
+def runCount {φ : Type} (run : Entry → φ → RunOut × φ) : List Val → GenObj φ → Nat
   | [], _ => 0
   | a :: h, g => let r := g.send run a; (if r.2.2 then 1 else 0) + runCount run h r.2.1
+
+
+/-! ### next / send / throw / close: reference semantics over a whole history -/
+
+/-- one call on a generator object -/
+inductive GOp | send (a : Val) | throw (e : NextErr) | close
+deriving DecidableEq, Repr, Inhabited
+
+/-- what the call does: next/send/throw return an item or raise (`resp`); close returns None (`closed`) or raises -/
+inductive GAns | resp (r : Resp) | closed | closeErr (e : NextErr)
+deriving DecidableEq, Repr, Inhabited
+
+/-- how a resumption that ends the coroutine is reported by next/send/throw -/
+def endResp (o : RunOut) : Resp :=
+  match o with
+  | .yield v => .item v
+  | .ret v => .err (if v != .none then .stopExc v else .stopType)
+  | .raise e => .err e
+
+/-- Python's definition of the generator methods against the coroutine `run`:
+* a finished generator answers StopIteration to next/send, hands an exception thrown into it straight back, and close() does nothing;
+* a generator that was never started refuses a non-None send (TypeError); throw(e) raises `e` at its first line – nothing of the
+  body runs and it is finished; close() just finishes it;
+* a suspended generator is resumed: send makes the yield expression evaluate to the value, throw(e) raises `e` at the yield;
+  close() raises GeneratorExit there and returns None if the generator then finishes (return, StopIteration, GeneratorExit),
+  raises RuntimeError if it yields again (it stays suspended at that yield), and propagates any other exception. -/
+def specOps {φ : Type} (run : Entry → φ → RunOut × φ) : List GOp → (started : Bool) → (live : Bool) → φ → List GAns
+  | [], _, _, _ => []
+  | .send a :: h, started, live, fr =>
+    if !live then .resp (.err .stopType) :: specOps run h started live fr
+    else if !started && a != .none then .resp (.err (.other .type)) :: specOps run h started live fr
+    else
+      let r := run (if started then .send a else .first) fr
+      .resp (endResp r.1) :: specOps run h true (match r.1 with | .yield _ => true | _ => false) r.2
+  | .throw e :: h, started, live, fr =>
+    if !live then .resp (.err e) :: specOps run h started live fr
+    else if !started then .resp (.err e) :: specOps run h true false fr
+    else
+      let r := run (.throw e) fr
+      .resp (endResp r.1) :: specOps run h true (match r.1 with | .yield _ => true | _ => false) r.2
+  | .close :: h, started, live, fr =>
+    if !live then .closed :: specOps run h started live fr
+    else if !started then .closed :: specOps run h true false fr
+    else
+      let r := run (.throw (.other .genExit)) fr
+      match r.1 with
+      | .yield _ => .closeErr (.other .runtime) :: specOps run h true true r.2
+      | .ret _ => .closed :: specOps run h true false r.2
+      | .raise e => (if e.isStop || e.isGenExit then .closed else .closeErr e) :: specOps run h true false r.2
+
+/-- the model (`Generator.Send` / `Throw` / `Close`) over a history -/
+def modelOps {φ : Type} (run : Entry → φ → RunOut × φ) : List GOp → GenObj φ → List GAns
+  | [], _ => []
+  | .send a :: h, g => let r := g.send run a; .resp r.1 :: modelOps run h r.2.1
+  | .throw e :: h, g => let r := g.throw run e; .resp r.1 :: modelOps run h r.2.1
+  | .close :: h, g =>
+    let r := g.close run
+    (match r.1 with | none => GAns.closed | some e => .closeErr e) :: modelOps run h r.2.1
+
+/-- the generator object after a history -/
+def modelOpsFinal {φ : Type} (run : Entry → φ → RunOut × φ) : List GOp → GenObj φ → GenObj φ
+  | [], g => g
+  | .send a :: h, g => modelOpsFinal run h (g.send run a).2.1
+  | .throw e :: h, g => modelOpsFinal run h (g.throw run e).2.1
+  | .close :: h, g => modelOpsFinal run h (g.close run).2.1
 
 end GPy.C05
